@@ -17,7 +17,7 @@ func init() {
 			"nil-error edge of, the LowerLevelUpdate call (after a failure the same stack stays and is offered again), and the value handed to LowerLevelUpdate is the one " +
 			"loaded from stackDirtyBase.",
 		Props: []string{"C13", "C06"},
-		Floor: 4,
+		Floor: 3,
 		Run:   ruleWB,
 	})
 }
